@@ -213,11 +213,26 @@ def invL (st : State) (t : Nat) (args : List String) : Except String State :=
   | ["broadcast"] => go (.invBroadcast t) "the call of Broadcast"
   | _ => .error "unreadable call"
 
+/-- the same state with its per-thread functions re-tabulated over `tids` (purely an evaluation-cost measure: `upd`
+    chains grow with the run).  Unlike `Ekit.Cond.State.compact` a thread outside `tids` keeps its value instead of being
+    reset, so this is the identity function (`retab_eq`, Driver/Ev/CondSound.lean) and the replayer's state stays a state
+    of a run of the model unconditionally. -/
+def retab (s : Ekit.Cond.State) (tids : List Nat) : Ekit.Cond.State :=
+  let pcs := tids.map fun t => (t, s.pc t)
+  let cxs := tids.map fun t => (t, s.ctx t)
+  let sns := tids.map fun t => (t, s.snap t)
+  let sts := tids.map fun t => (t, s.sent t)
+  { s with
+    pc := fun t => match pcs.lookup t with | some p => p | none => s.pc t
+    ctx := fun t => match cxs.lookup t with | some p => p | none => s.ctx t
+    snap := fun t => match sns.lookup t with | some p => p | none => s.snap t
+    sent := fun t => match sts.lookup t with | some p => p | none => s.sent t }
+
 def resL (st : State) (t : Nat) (args : List String) : Except String State := do
   let s ← advance st.m t 1000
   let fin (l : Label) : Except String State :=
     match step s l with
-    | some s' => pure { st with m := s'.compact st.tids }
+    | some s' => pure { st with m := retab s' st.tids }
     | none => .error s!"thread {t} returned {args} where the model is at {repr (s.pc t)}"
   match args with
   | ["locked"] =>
